@@ -35,10 +35,21 @@ theorem run_contract (c : Cfg) (sched : List Bool) : contract (run sched (init c
   simp only [okLocal, Bool.and_eq_true] at h
   exact h.1.1.2
 
-theorem run_ackSafe (c : Cfg) (sched : List Bool) : ackSafe (run sched (init c)) = true := by
+theorem run_ackSafe (c : Cfg) (htop : c.top ≠ .untrash) (sched : List Bool) :
+    ackSafe (run sched (init c)) = true := by
+  have h := run_local c sched
+  simp only [okLocal, Bool.and_eq_true, htop, if_false] at h
+  exact h.1.2
+
+/-- with an untrash as second thread: at quiescence -/
+theorem run_ackSafe_fin (c : Cfg) (sched : List Bool) (hf : finished (run sched (init c)) = true) :
+    ackSafe (run sched (init c)) = true := by
   have h := run_local c sched
   simp only [okLocal, Bool.and_eq_true] at h
-  exact h.1.2
+  have h2 := h.1.2
+  split at h2
+  · simpa [hf] using h2
+  · exact h2
 
 theorem run_append (a b : List Bool) (s : St) : run (a ++ b) s = run b (run a s) := by
   induction a generalizing s with
